@@ -169,7 +169,7 @@ def oracle_c17(m, entries, fm, filtered):
         expect("Min constraints per feature", min(cpf))
         expect("Max constraints per feature", max(cpf))
         expect("Avg constraints per feature", round(statistics.mean(cpf), 2))
-        expect("Features in constraints", sorted(set().union(*per_ctc)) if per_ctc else [])
+        expect("Features in constraints", sorted(set().union(*per_ctc) & set(fnames)) if per_ctc else [])
         expect("Cross-tree constraints", sorted(str(c) for c in fm.get_constraints()))
     # duplicates of stand-alone operations
     from flamapy.metamodels.fm_metamodel.operations import (FMAverageBranchingFactor, FMMaxDepthTree,
@@ -198,6 +198,11 @@ def cases(ctx):
         yield "nest-ctc", m
     for m in gen.case_twin_models():
         yield "case-twins", m
+    # constraints that mention attributes of features or literals, not only features
+    T, OP = spec.T, spec.OP
+    yield "attribute-references", gen.free_model([OP("IMPLIES", T("A.x"), T("A.y")), OP("NOT", T("A.z")), OP("OR", T("B"), T("'lit'"))],
+                                                 names=("A", "B"))
+    yield "attribute-references", gen.free_model([OP("REQUIRES", T("A.x"), T("C.y")), OP("EXCLUDES", T("B.x"), T("B.y"))], names=("A",))
     yield "twins", dict(root=spec.F("App", [spec.R(1, 1, [spec.F("log")]), spec.R(0, 1, [spec.F("Log")]),
                                             spec.R(1, 1, [spec.F("Ab"), spec.F("aB")])]), ctcs=[])
     for i in range(200 if ctx.tier == "quick" else 3000):
